@@ -129,7 +129,7 @@ func checkC19(c *Ctx) {
 	for _, b := range worker.Blocks {
 		for _, in := range b.Instrs {
 			if call, ok := in.(*ssa.Call); ok {
-				if callee := call.Call.StaticCallee(); callee != nil && callee.Name() == "Add" && callee.Pkg != nil && strings.Contains(callee.Pkg.Pkg.Path(), "fsnotify") {
+				if name, pkg, _ := calledMethod(call); name == "Add" && strings.Contains(pkg, "fsnotify") {
 					addCalls = append(addCalls, call)
 				}
 			}
@@ -145,8 +145,18 @@ func checkC19(c *Ctx) {
 			}
 		}
 	}
+	addArg := func(call *ssa.Call) ssa.Value { // the directory argument; an element of a read-only table is its constant
+		_, _, args := calledMethod(call)
+		if len(args) != 1 {
+			return nil
+		}
+		if k, ok := roTableConst(c.P, args[0]); ok {
+			return k
+		}
+		return args[0]
+	}
 	for _, call := range addCalls {
-		if k, ok := call.Call.Args[1].(*ssa.Const); ok && k.Value != nil {
+		if k, ok := addArg(call).(*ssa.Const); ok && k.Value != nil && k.Value.Kind() == constant.String {
 			watched = append(watched, constant.StringVal(k.Value))
 		}
 	}
@@ -157,7 +167,7 @@ func checkC19(c *Ctx) {
 	// the Add call sits in a loop over the whole list (or one call per constant)
 	if len(addCalls) == 1 {
 		call := addCalls[0]
-		_, isConst := call.Call.Args[1].(*ssa.Const)
+		_, isConst := addArg(call).(*ssa.Const)
 		c.Check(isConst || inCycle(call.Block()), "R19.1", "config.DetectDeviceConfigChanges/add-for-every-dir", c.P.Pos(call.Pos()), "Add is called for every element of the list", "watcher.Add is not called for every directory")
 	}
 
@@ -267,6 +277,11 @@ func checkC19(c *Ctx) {
 			}
 		}
 		isErrorsChan := func(f *ssa.Function, v ssa.Value) bool {
+			if r := resolveValue(v); r != v { // a variable the channel was bound to once
+				if pf := parentOf(r); pf != nil {
+					f, v = pf, r
+				}
+			}
 			t := NewFnView(c.P, f).Term(v).String()
 			if strings.HasSuffix(t, ".Errors") {
 				return true
@@ -339,7 +354,7 @@ func checkC19(c *Ctx) {
 					waits = true
 				}
 				if call, ok := in.(*ssa.Call); ok {
-					if callee := call.Call.StaticCallee(); callee != nil && callee.Name() == "Close" && callee.Pkg != nil && strings.Contains(callee.Pkg.Pkg.Path(), "fsnotify") {
+					if name, pkg, _ := calledMethod(call); name == "Close" && strings.Contains(pkg, "fsnotify") {
 						closes = waits
 					}
 				}
@@ -717,4 +732,25 @@ func ruleNotifyIff(c *Ctx, worker *ssa.Function, change *chanClass, suffix strin
 		return
 	}
 	c.Check(bad == "", "R19.2", key, pos, fmt.Sprintf("%d path(s) through one iteration: notified iff write && suffix", n), bad)
+}
+
+// calledMethod: name and package of the function or method a call reaches - statically, or through a variable that was
+// bound once to a method value (`add := watcher.Add; add(dir)`) - and the arguments without the receiver.
+func calledMethod(call *ssa.Call) (name, pkg string, args []ssa.Value) {
+	if callee := call.Call.StaticCallee(); callee != nil {
+		if _, isMC := call.Call.Value.(*ssa.MakeClosure); !isMC {
+			args = call.Call.Args
+			if callee.Signature.Recv() != nil && len(args) > 0 {
+				args = args[1:]
+			}
+			return callee.Name(), pkgPathOf(callee), args
+		}
+	}
+	if call.Call.IsInvoke() {
+		return "", "", nil
+	}
+	if m, _ := boundMethodOf(call.Call.Value); m != nil && m.Pkg() != nil {
+		return m.Name(), m.Pkg().Path(), call.Call.Args
+	}
+	return "", "", nil
 }
